@@ -467,6 +467,14 @@ def selftest():
     b = lambda name, file, old, new, rule, expect="", **kw: V.append(dict(name=name, kind="break", file=file, old=old, new=new, rule=rule, expect=expect, **kw))
     n = lambda name, file, old, new, **kw: V.append(dict(name=name, kind="neutral", file=file, old=old, new=new, **kw))
     PYDM_ = "phonopy/harmonic/dynamical_matrix.py"
+    V.append(dict(name="per-q matrix written into a work array allocated once", kind="break", rule="R02y.outbuf", expect="_run_py_dynamical_matrix", edits=[
+        dict(file=PYDM_, old="        self._dynamical_matrix = None\n        self._force_constants = None\n", new="        self._dynamical_matrix = None\n        self._dm_work = np.zeros((len(primitive) * 3, len(primitive) * 3), dtype=self._dtype_complex)\n        self._force_constants = None\n"),
+        dict(file=PYDM_, old="        self._dynamical_matrix = (dm + dm.conj().transpose()) / 2", new="        self._dm_work[:] = (dm + dm.conj().transpose()) / 2\n        self._dynamical_matrix = self._dm_work"),
+    ]))
+    V.append(dict(name="per-q matrix copied out of a work array allocated once", kind="neutral", edits=[
+        dict(file=PYDM_, old="        self._dynamical_matrix = None\n        self._force_constants = None\n", new="        self._dynamical_matrix = None\n        self._dm_work = np.zeros((len(primitive) * 3, len(primitive) * 3), dtype=self._dtype_complex)\n        self._force_constants = None\n"),
+        dict(file=PYDM_, old="        self._dynamical_matrix = (dm + dm.conj().transpose()) / 2", new="        self._dm_work[:] = (dm + dm.conj().transpose()) / 2\n        self._dynamical_matrix = self._dm_work.copy()"),
+    ]))
     b("factory rounds the array the new object holds, i.e. possibly the caller's", PYDM_, "        dm.nac_params = nac_params\n    return dm\n", "        dm.nac_params = nac_params\n    if frequency_scale_factor is None and decimals is not None:\n        fc = dm.force_constants\n        fc[:] = fc.round(decimals=decimals)\n    return dm\n", "R02y.ctoralias", "get_dynamical_matrix")
     n("factory rounds a copy of what the new object holds", PYDM_, "        dm.nac_params = nac_params\n    return dm\n", "        dm.nac_params = nac_params\n    if frequency_scale_factor is None and decimals is not None:\n        fc = np.array(dm.force_constants)\n        fc[:] = fc.round(decimals=decimals)\n    return dm\n")
     b("positions wrapped before the change to the reduced basis", "phonopy/structure/cells.py", "        supercell_fracs = np.dot(self._supercell_pos, trans_mat)\n        supercell_fracs -= np.rint(supercell_fracs)\n", "        supercell_fracs = np.dot(self._supercell_pos - np.rint(self._supercell_pos), trans_mat)\n", "R02m", "_transform_cell_basis")
